@@ -121,6 +121,7 @@ func Stress(cfg StressConfig) *Outcome {
 	out.History = w.History
 	monitorsC16(out, c, w, base)
 	out.Viols = append(out.Viols, CheckHistory(out)...)
+	out.Viols = append(out.Viols, CheckPersistence(out)...)
 	out.WallMS = float64(time.Since(t0).Microseconds()) / 1000
 	return out
 }
